@@ -18,6 +18,35 @@ class FactsError(Exception):
     pass
 
 
+PROFILE_TOKENS = ("debug_assertions", "overflow_checks", "debug_assert")
+
+
+def profile_sensitive(crate_dir=None):
+    """Escalation trigger for the quick tier (never a verdict): does the crate's source mention a cfg that differs between the dev and
+    release profiles?  If so the MIR of the two configurations can differ by more than the overflow assertions (which the dev analysis
+    already reports as panics), and the quick tier analyses both.  Returns the list of (file, token) mentions."""
+    crate_dir = crate_dir or REPO
+    hits = []
+    for root, dirs, files in os.walk(os.path.join(crate_dir, "src")):
+        for f in sorted(files):
+            if f.endswith(".rs"):
+                try:
+                    text = open(os.path.join(root, f), errors="replace").read()
+                except OSError:
+                    continue
+                for t in PROFILE_TOKENS:
+                    if t in text:
+                        hits.append((os.path.relpath(os.path.join(root, f), crate_dir), t))
+    try:
+        toml = open(os.path.join(crate_dir, "Cargo.toml")).read()
+        for t in ("overflow-checks", "debug-assertions"):
+            if t in toml:
+                hits.append(("Cargo.toml", t))
+    except OSError:
+        pass
+    return hits
+
+
 def sysroot():
     return subprocess.check_output(["rustc", "+nightly", "--print", "sysroot"], text=True).strip()
 
